@@ -23,6 +23,7 @@ class Proto(G.Gram):
         self.msg_types: dict[str, dict] = {}  # name -> {kw, field, fieldrule, form, constraint}
         self.state_rules: list[str] = []
         self.field_constraints: dict[str, tuple] = {}  # field nt -> (kind, k, r)
+        self.eq_constraints: list = []  # (field a, field b): every occurrence of a equals every occurrence of b
 
     def is_msg(self, node) -> bool:
         return node[0] == "nt" and len(node) > 2 and node[2] is not None
@@ -40,7 +41,18 @@ class Proto(G.Gram):
 def _occ(ch, p: Proto, cfg) -> tuple:
     name = ch.pick(sorted(p.msg_types), "spec", "occ")
     m = p.msg_types[name]
-    return ("nt", name, m["sender"], m["recipient"])
+    snd, rcp = m["sender"], m["recipient"]
+    if cfg.get("reuse_types") and ch.coin(0.3, "spec", "other-pair"):
+        # the same message type used by another party pair at this site
+        if snd in p.fuzzers:
+            rcp = ch.pick(p.externals, "spec", "alt-rcp")
+        else:
+            snd = ch.pick(p.externals, "spec", "alt-snd")
+            if cfg.get("ext_to_ext") and len(p.externals) > 1 and ch.coin(0.4, "spec", "ext2ext"):
+                # a message between two external parties: invisible to Fandango (sliced away)
+                rcp = ch.pick([e for e in p.externals if e != snd], "spec", "ext-rcp")
+        p.meta.setdefault("pairs", set()).add((name, snd, rcp))
+    return ("nt", name, snd, rcp)
 
 
 def _s_atom(ch, p: Proto, cfg, avail, depth):
@@ -81,6 +93,15 @@ def _s_item(ch, p: Proto, cfg, avail, depth):
 def _s_cat(ch, p: Proto, cfg, avail, depth):
     n = 1 + ch.weighted([3, 4, 2], "spec", "scat")
     items = [_s_item(ch, p, cfg, avail, depth) for _ in range(n)]
+    if not cfg.get("adjacent_nullable"):
+        # Fandango's Earley parser is incomplete for adjacent nullable items (listed finding);
+        # keep them apart unless this spec opted in
+        out = [items[0]]
+        for x in items[1:]:
+            if p.nullable(out[-1]) and p.nullable(x):
+                out.append(_occ(ch, p, cfg))
+            out.append(x)
+        items = out
     return items[0] if len(items) == 1 else ("cat", tuple(items))
 
 
@@ -128,7 +149,11 @@ def _s_expr(ch, p: Proto, cfg, avail, depth):
 def gen_protocol(ch, cfg: dict) -> Proto:
     p = Proto()
     cfg = dict(cfg)
+    p.gen_cfg = cfg
     cfg["ll1_alternatives"] = not ch.coin(cfg.get("ambiguous_states", 0.25), "spec", "ambiguous-states")
+    cfg["adjacent_nullable"] = ch.coin(cfg.get("adjacent_nullable_rate", 0.2), "spec", "adjacent-nullable")
+    cfg["reuse_types"] = ch.coin(cfg.get("reuse_types_rate", 0.3), "spec", "reuse-types")
+    cfg["ext_to_ext"] = ch.coin(cfg.get("ext_to_ext_rate", 0.5), "spec", "ext-to-ext")
     p.fuzzers = ["Fz"] + (["Fy"] if ch.coin(cfg.get("two_fuzzers", 0.15), "spec", "fy") else [])
     p.externals = ["Ex"] + (["Ey"] if ch.coin(cfg.get("two_externals", 0.45), "spec", "ey") else [])
     if len(p.externals) == 2 and ch.coin(0.25, "spec", "ez"):
@@ -197,11 +222,22 @@ def gen_protocol(ch, cfg: dict) -> Proto:
             ordered[m["field"]] = body_rules[m["field"]]
     p.rules = ordered
     p.field_constraints = {f: c for f, c in p.field_constraints.items() if f in p.rules}
+    # cross-message constraint: two numeric fields of different message types must agree
+    num = sorted(m["field"] for m in p.msg_types.values() if m["field"] and m["form"] == 1 and m["field"] not in p.field_constraints)
+    p.eq_constraints = []
+    if len(num) >= 2 and ch.coin(cfg.get("cross_constraint_rate", 0.35), "spec", "cross"):
+        a = ch.pick(num, "spec", "cross-a")
+        b_ = ch.pick([x for x in num if x != a], "spec", "cross-b")
+        p.eq_constraints.append((a, b_))
     p.constraints = ["where int(<%s>) %% %d == %d" % (f, c[1], c[2]) for f, c in p.field_constraints.items()]
+    p.constraints += ["where str(<%s>) == str(<%s>)" % ab for ab in p.eq_constraints]
     used_parties = set()
     for m in p.msg_types.values():
         used_parties.add(m["sender"])
         used_parties.add(m["recipient"])
+    for (_n, s_, r_) in p.meta.get("pairs", ()):
+        used_parties.add(s_)
+        used_parties.add(r_)
     p.fuzzers = [x for x in p.fuzzers if x in used_parties]
     p.externals = [x for x in p.externals if x in used_parties]
     return p
@@ -253,3 +289,94 @@ def sample_msg(p: Proto, ch, mtype: str, want_ok: Optional[bool], stream="work")
         if want_ok is None or ok == want_ok:
             return text, model, ok
     return last
+
+
+def all_fields(p: Proto, models) -> dict:
+    """field nt -> list of texts over a list of message model trees."""
+    out: dict = {}
+
+    def walk(m):
+        if m[0] == "N":
+            if m[1] in p.rules and m[1].startswith("f"):
+                out.setdefault(m[1], []).append("".join(G.leaves(m)))
+            for c in m[2]:
+                walk(c)
+
+    for m in models:
+        walk(m)
+    return out
+
+
+def history_violations(p: Proto, models) -> list:
+    """Constraints (harness-side meaning) violated by a list of message models."""
+    fields = all_fields(p, models)
+    bad = []
+    for f, c in p.field_constraints.items():
+        for t in fields.get(f, []):
+            try:
+                if int(t) % c[1] != c[2]:
+                    bad.append("int(<%s>) %% %d == %d fails for %r" % (f, c[1], c[2], t))
+            except ValueError:
+                bad.append("int(<%s>) raises for %r" % (f, t))
+    for a, b in p.eq_constraints:
+        for x in fields.get(a, []):
+            for y in fields.get(b, []):
+                if x != y:
+                    bad.append("str(<%s>) == str(<%s>) fails for %r / %r" % (a, b, x, y))
+    return bad
+
+
+def force_field(model, field: str, value: str):
+    """Copy of a message model with every occurrence of <field> replaced by ``value``."""
+    if model[0] == "T":
+        return model
+    if model[1] == field:
+        return ("N", field, (("T", value),), model[3], model[4])
+    return ("N", model[1], tuple(force_field(c, field, value) for c in model[2]), model[3], model[4])
+
+
+def sample_msg_in_history(p: Proto, ch, mtype: str, want_ok: bool, history_models, stream="work"):
+    """Like sample_msg, but aware of the cross-message constraints given the history so far."""
+    text, model, ok = sample_msg(p, ch, mtype, True if want_ok else None, stream)
+    f = p.msg_types[mtype]["field"]
+    partner_vals = []
+    if f:
+        fields = all_fields(p, history_models)
+        for a, b in p.eq_constraints:
+            if f == a:
+                partner_vals += fields.get(b, [])
+            elif f == b:
+                partner_vals += fields.get(a, [])
+    if want_ok:
+        if partner_vals:
+            model = force_field(model, f, partner_vals[0])
+    else:
+        # violate something: prefer the cross constraint when one is in force
+        if partner_vals:
+            v = partner_vals[0]
+            other = str((int(v) + 1) % 1000) if v.isdigit() else "7"
+            model = force_field(model, f, other)
+        else:
+            text2, model2, ok2 = sample_msg(p, ch, mtype, False, stream)
+            model = model2
+    text = "".join(G.leaves(model))
+    ok = not history_violations(p, list(history_models) + [model])
+    return text, model, ok
+
+
+def has_adjacent_nullables(p: Proto) -> bool:
+    def walk(n) -> bool:
+        k = n[0]
+        if k == "cat":
+            items = n[1]
+            for a, b in zip(items, items[1:]):
+                if p.nullable(a) and p.nullable(b):
+                    return True
+            return any(walk(x) for x in items)
+        if k == "alt":
+            return any(walk(x) for x in n[1])
+        if k in ("star", "plus", "opt", "rep"):
+            return walk(n[1])
+        return False
+
+    return any(walk(p.rules[r]) for r in p.state_rules)
